@@ -853,8 +853,18 @@ Record case := mkCase {
   k_samples : list Z;                        (* samples of the VCF header *)
   k_cs : list chrom;                         (* input VCF + traced instances *)
   k_ob : observed;                           (* what the real run wrote *)
-  k_inst_recs : option (list (option (list rec_entry)))   (* real write_recombination_list on each traced instance alone (None: AssertionError) *)
+  k_inst_recs : option (list (option (list rec_entry)));  (* real write_recombination_list on each traced instance alone (None: AssertionError) *)
+  k_read_src : list (Z * (Z * Z))            (* generator's knowledge: (read name, (sample, index of the input file it was written to)) *)
 }.
+
+(* the source_id column names the input file (its index on the command line) that the read was taken from *)
+Definition spec_read_source (src : list (Z * (Z * Z))) (ob : observed) : bool :=
+  match entries_of (ob_reads ob) with
+  | None => false
+  | Some es =>
+      forallb (fun e => existsb (fun x => (fst x =? re_name e) && (fst (snd x) =? re_sample e)
+                                          && (snd (snd x) =? re_source e)) src) es
+  end.
 
 Definition spec_gt_sound (d : Z) (cs : list chrom) (ob : observed) : bool :=
   vcf_aligned cs (ob_vcf ob) &&
@@ -872,6 +882,8 @@ Definition spec_gt_cover (d : Z) (cs : list chrom) (ob : observed) : bool :=
 Definition chk_wf (k : case) : bool := run_wf (k_ids k) (k_cs k).
 Definition chk_read_sound (k : case) : bool :=
   negb (o_reads (k_opts k)) || spec_read_sound (k_ids k) (k_cs k) (k_ob k).
+Definition chk_read_source (k : case) : bool :=
+  negb (o_reads (k_opts k)) || spec_read_source (k_read_src k) (k_ob k).
 Definition chk_read_cover (k : case) : bool :=
   negb (o_reads (k_opts k)) || spec_read_cover (k_ids k) (k_cs k) (k_ob k).
 Definition chk_gt_sound (d : Z) (k : case) : bool :=
